@@ -4,7 +4,7 @@
 # worktree of /repo's HEAD, the library is built from there into build/try_<variant>, and the check writes to a scratch VERIF_DIR.
 # (Equivalent to `git -C /repo apply`, `./check`, `git -C /repo checkout -- .`, but safe while background runs use /repo.)
 name="$1"; prop="$2"; shift 2
-wt=/tmp/wt_try; vd=/tmp/vd_try_$$
+tag="${TRY_TAG:-}"; wt=/tmp/wt_try$tag; vd=/tmp/vd_try_$$
 git -C /repo worktree remove --force "$wt" > /dev/null 2>&1; rm -rf "$wt"
 git -C /repo worktree add --detach "$wt" HEAD > /dev/null 2>&1 || { echo "cannot create worktree"; exit 2; }
 cleanup() { git -C /repo worktree remove --force "$wt" > /dev/null 2>&1; rm -rf "$vd"; }
@@ -14,6 +14,6 @@ mkdir -p "$vd/findings"; cp /verif/findings/known_findings.txt "$vd/findings/"; 
 cd /verif
 variants="asan"; [ "$prop" = "C20" ] && variants="asan tsan"
 for v in $variants; do
-  python3 tools/gen_build.py $v --repo "$wt" --out /verif/build/try_$v > /dev/null 2>&1 || { echo "build failed ($v)"; exit 2; }
-  VERIF_DIR="$vd" build/try_$v/vsim check "$prop" "$@" 2>/dev/null | grep -E "^VIOLATION|^KNOWN|class=|^vsim:.*runs \(" | sed "s|$vd|<scratch>|" | cut -c1-260 | head -12
+  python3 tools/gen_build.py $v --repo "$wt" --out /verif/build/try${tag}_$v > /dev/null 2>&1 || { echo "build failed ($v)"; exit 2; }
+  VERIF_DIR="$vd" build/try${tag}_$v/vsim check "$prop" "$@" 2>/dev/null | grep -E "^VIOLATION|^KNOWN|class=|^vsim:.*runs \(" | sed "s|$vd|<scratch>|" | cut -c1-260 | head -12
 done
